@@ -103,11 +103,12 @@ def selectors(module, tier):
     return [f"{module}::q_", f"{module}::qp_", f"{module}::r{k}_", f"{module}::r{k}p_"]
 
 
-def kani_env(profile, extra_rustflags=""):
+def kani_env(profile, extra_rustflags="", crate=None):
     env = dict(os.environ)
     env["CARGO_NET_OFFLINE"] = "true"
     env["RUSTFLAGS"] = (PROFILES[profile] + " " + extra_rustflags).strip()
-    env["CARGO_TARGET_DIR"] = os.path.join(TARGET, "kani-" + profile)
+    tag = "" if crate in (None, KANI_CRATE) else os.path.basename(crate) + "-"
+    env["CARGO_TARGET_DIR"] = os.path.join(TARGET, "kani-" + tag + profile)
     env.pop("RUSTC_WRAPPER", None)
     return env
 
@@ -146,11 +147,17 @@ def run_kani(module, tier, profile="dev", jobs=None, timeout_s=None, extra_filte
     with open(log_path, "w") as lf:
         # address-space cap per process keeps a runaway CBMC from taking the sandbox down
         shell = "ulimit -v 25000000; exec " + " ".join(_q(c) for c in cmd)
-        p = subprocess.run(["bash", "-c", shell], cwd=crate, env=kani_env(profile),
+        p = subprocess.run(["bash", "-c", shell], cwd=crate, env=kani_env(profile, crate=crate),
                            stdout=lf, stderr=subprocess.STDOUT)
     wall = time.time() - t0
     info = {"cmd": " ".join(cmd), "rc": p.returncode, "wall_s": wall, "log": log_path,
             "profile": profile, "rustflags": kani_env(profile)["RUSTFLAGS"]}
+    if REPO != "/repo":
+        # a repo under test elsewhere (development aid): point the path dependency there
+        ct = os.path.join(crate, "Cargo.toml")
+        t = open(ct).read()
+        if 'path = "/repo"' in t:
+            open(ct, "w").write(t.replace('path = "/repo"', f'path = "{REPO}"'))
     with open(log_path, errors="replace") as f:
         logtxt = f.read()
     info["stubs"] = sorted(set(m.strip() for m in re.findall(r"- Stub: (.*)", logtxt)))
